@@ -42,14 +42,7 @@ theorem size_le_toks : ∀ (e : XExpr), wf e = true → ∀ p, size e ≤ (toks 
     have := size_le_toks x hx lowestPrec
     simp only [size, toks_paren, wrapT]
     by_cases hp : isParenNode x = true
-    · -- collapsed double parenthesis: `x` is itself a `paren` node printed with its own pair
-      cases x with
-      | paren z =>
-        have hz : wf z = true := by simpa [wf] using hx
-        have hzz := size_le_toks z hz lowestPrec
-        simp only [hp, if_true, size, toks_paren, wrapT]
-        sorry
-      | _ => simp [isParenNode] at hp
+    · simp [hp]; omega
     · simp [hp]; omega
   | .selector x s, h, p => by
     have := size_le_toks x (by simpa [wf] using h) highestPrec
@@ -100,6 +93,218 @@ theorem sizeL_le_toksL : ∀ (l : List XExpr), wfL l = true → sizeL l ≤ (tok
     rw [toksL_cons2]
     simp only [sizeL] at this ⊢
     simp; omega
+end
+
+/-- The parser model, with the fuel fixed by `parseX`, returns `norm e` on the printed tokens. -/
+theorem parseX_toks {e : XExpr} (h : wf e = true) :
+    parseX (toks e lowestPrec) = .ok (norm e lowestPrec) := by
+  have hsz := size_le_toks e h lowestPrec
+  have hm := (main e h).e [] rfl (fuelFor (toks e lowestPrec)) (by
+    simp only [fuelFor, cost]; omega)
+  simp only [List.append_nil] at hm
+  simp [parseX, hm]
+
+/-! ## Removing parentheses; trees without parentheses -/
+
+mutual
+/-- `e` without any `paren` node. -/
+def deparen : XExpr → XExpr
+  | .paren x => deparen x
+  | .binary op x y => .binary op (deparen x) (deparen y)
+  | .unary op x => .unary op (deparen x)
+  | .star x => .star (deparen x)
+  | .selector x s => .selector (deparen x) s
+  | .index x i => .index (deparen x) (deparen i)
+  | .slice x lo hi mx s3 => .slice (deparen x) (deparenO lo) (deparenO hi) (deparenO mx) s3
+  | .call f args ell cmd => .call (deparen f) (deparenL args) ell cmd
+  | .composite ty elts => .composite (deparenO ty) (deparenL elts)
+  | .kv k v => .kv (deparen k) (deparen v)
+  | .sliceLit elts => .sliceLit (deparenL elts)
+  | .lambda lhs lp rhs rp => .lambda lhs lp (deparenL rhs) rp
+  | .errWrap x tok d => .errWrap (deparen x) tok (deparenO d)
+  | .typeAssert x ty => .typeAssert (deparen x) (deparenO ty)
+  | .range a b c => .range (deparenO a) (deparenO b) (deparenO c)
+  | .tuple items ell => .tuple (deparenL items) ell
+  | .ident s => .ident s
+  | .lit k v => .lit k v
+  | .numUnit k v u => .numUnit k v u
+  | .env s b => .env s b
+  | .bad => .bad
+def deparenL : List XExpr → List XExpr
+  | [] => []
+  | e :: r => deparen e :: deparenL r
+def deparenO : Option XExpr → Option XExpr
+  | none => none
+  | some e => some (deparen e)
+end
+
+mutual
+/-- No `paren` node anywhere ("synthesized tree without explicit parentheses"). -/
+def noParen : XExpr → Bool
+  | .paren _ => false
+  | .binary _ x y => noParen x && noParen y
+  | .unary _ x => noParen x
+  | .star x => noParen x
+  | .selector x _ => noParen x
+  | .index x i => noParen x && noParen i
+  | .slice x lo hi mx _ => noParen x && noParenO lo && noParenO hi && noParenO mx
+  | .call f args _ _ => noParen f && noParenL args
+  | .composite ty elts => noParenO ty && noParenL elts
+  | .kv k v => noParen k && noParen v
+  | .sliceLit elts => noParenL elts
+  | .lambda _ _ rhs _ => noParenL rhs
+  | .errWrap x _ d => noParen x && noParenO d
+  | .typeAssert x ty => noParen x && noParenO ty
+  | .range a b c => noParenO a && noParenO b && noParenO c
+  | .tuple items _ => noParenL items
+  | _ => true
+def noParenL : List XExpr → Bool
+  | [] => true
+  | e :: r => noParen e && noParenL r
+def noParenO : Option XExpr → Bool
+  | none => true
+  | some e => noParen e
+end
+
+theorem deparen_wrapP (b : Bool) (e : XExpr) : deparen (wrapP b e) = deparen e := by
+  cases b <;> simp [wrapP, deparen]
+
+mutual
+/-- The parentheses the printer inserts are the only difference between `norm e` and `e`. -/
+theorem deparen_norm : ∀ (e : XExpr), wf e = true → noParen e = true → ∀ p, deparen (norm e p) = e
+  | .ident _, _, _, _ => by simp [norm, deparen]
+  | .lit _ _, _, _, _ => by simp [norm, deparen]
+  | .numUnit _ _ _, _, _, _ => by simp [norm, deparen]
+  | .env _ _, _, _, _ => by simp [norm, deparen]
+  | .binary op x y, h, hn, p => by
+    have h' := h
+    simp only [wf, Bool.and_eq_true] at h'
+    have hn' : noParen x = true ∧ noParen y = true := by simpa [noParen] using hn
+    simp [norm, deparen_wrapP, deparen, deparen_norm x h'.1.2 hn'.1, deparen_norm y h'.2 hn'.2]
+  | .unary op x, h, hn, p => by
+    have h' := h
+    simp only [wf, Bool.and_eq_true] at h'
+    have hn' : noParen x = true := by simpa [noParen] using hn
+    simp [norm, deparen_wrapP, deparen, deparen_norm x h'.2 hn']
+  | .star x, h, hn, p => by
+    have hx : wf x = true := by simpa [wf] using h
+    have hn' : noParen x = true := by simpa [noParen] using hn
+    simp [norm, deparen_wrapP, deparen, deparen_norm x hx hn']
+  | .paren x, _, hn, _ => by simp [noParen] at hn
+  | .selector x s, h, hn, p => by
+    have hx : wf x = true := by simpa [wf] using h
+    have hn' : noParen x = true := by simpa [noParen] using hn
+    simp [norm, deparen, deparen_norm x hx hn']
+  | .index x i, h, hn, p => by
+    have h' : wf x = true ∧ wf i = true := by simpa [wf] using h
+    have hn' : noParen x = true ∧ noParen i = true := by simpa [noParen] using hn
+    simp [norm, deparen, deparen_norm x h'.1 hn'.1, deparen_norm i h'.2 hn'.2]
+  | .call f args ell cmd, h, hn, p => by
+    have h' := h
+    simp only [wf, Bool.and_eq_true, Bool.not_eq_true'] at h'
+    obtain ⟨⟨⟨_, hf⟩, hargs⟩, _⟩ := h'
+    have hn' : noParen f = true ∧ noParenL args = true := by simpa [noParen] using hn
+    simp [norm, deparen, deparen_norm f hf hn'.1, deparenL_normL args hargs hn'.2]
+  | .errWrap x tok none, h, hn, p => by
+    have hn' : noParen x = true := by simpa [noParen, noParenO] using hn
+    simp [norm, deparen, deparenO, deparen_norm x (wf_errWrap_none h).2 hn']
+  | .errWrap x tok (some d), h, hn, p => by
+    obtain ⟨_, hx, hd⟩ := wf_errWrap_some h
+    have hn' : noParen x = true ∧ noParen d = true := by simpa [noParen, noParenO] using hn
+    simp [norm, deparen_wrapP, deparen, deparenO, deparen_norm x hx hn'.1, deparen_norm d hd hn'.2]
+  | .slice .., h, _, _ => by simp [wf] at h
+  | .composite .., h, _, _ => by simp [wf] at h
+  | .kv .., h, _, _ => by simp [wf] at h
+  | .sliceLit .., h, _, _ => by simp [wf] at h
+  | .lambda .., h, _, _ => by simp [wf] at h
+  | .typeAssert .., h, _, _ => by simp [wf] at h
+  | .range .., h, _, _ => by simp [wf] at h
+  | .tuple .., h, _, _ => by simp [wf] at h
+  | .bad, h, _, _ => by simp [wf] at h
+theorem deparenL_normL : ∀ (l : List XExpr), wfL l = true → noParenL l = true →
+    deparenL (normL l) = l
+  | [], _, _ => by simp [normL, deparenL]
+  | e :: r, h, hn => by
+    have h' := h
+    simp only [wfL, Bool.and_eq_true] at h'
+    have hn' : noParen e = true ∧ noParenL r = true := by simpa [noParenL] using hn
+    simp [normL, deparenL, deparen_norm e h'.1 hn'.1, deparenL_normL r h'.2 hn'.2]
+end
+
+/-! ## Parser-shaped trees -/
+
+mutual
+/-- `e` carries an explicit `paren` node wherever a context of precedence `p` needs one, and no
+directly nested parentheses: the shape of the trees the parser returns. -/
+def shaped : XExpr → Nat → Bool
+  | .binary op x y, p => decide (p ≤ prec op) && shaped x (prec op) && shaped y (prec op + 1)
+  | .unary _ x, p => decide (p ≤ unaryPrec) && shaped x unaryPrec
+  | .star x, p => decide (p ≤ unaryPrec) && shaped x unaryPrec
+  | .paren x, _ => !isParenNode x && shaped x lowestPrec
+  | .selector x _, _ => shaped x highestPrec
+  | .index x i, _ => shaped x highestPrec && shaped i lowestPrec
+  | .call f args _ _, _ => shaped f highestPrec && shapedL args
+  | .errWrap x _ none, _ => shaped x highestPrec
+  | .errWrap x _ (some d), p => decide (p ≤ unaryPrec) && shaped x highestPrec && shaped d unaryPrec
+  | _, _ => true
+def shapedL : List XExpr → Bool
+  | [] => true
+  | e :: r => shaped e lowestPrec && shapedL r
+end
+
+mutual
+/-- On a parser-shaped tree the printer adds nothing: `norm e = e`. -/
+theorem norm_shaped : ∀ (e : XExpr) (p : Nat), shaped e p = true → norm e p = e
+  | .binary op x y, p, h => by
+    have h' := h
+    simp only [shaped, Bool.and_eq_true, decide_eq_true_eq] at h'
+    simp [norm, wrapP, Nat.not_lt.mpr h'.1.1, norm_shaped x _ h'.1.2, norm_shaped y _ h'.2]
+  | .unary op x, p, h => by
+    have h' := h
+    simp only [shaped, Bool.and_eq_true, decide_eq_true_eq] at h'
+    simp [norm, wrapP, Nat.not_lt.mpr h'.1, norm_shaped x _ h'.2]
+  | .star x, p, h => by
+    have h' := h
+    simp only [shaped, Bool.and_eq_true, decide_eq_true_eq] at h'
+    simp [norm, wrapP, Nat.not_lt.mpr h'.1, norm_shaped x _ h'.2]
+  | .paren x, p, h => by
+    have h' := h
+    simp only [shaped, Bool.and_eq_true, Bool.not_eq_true'] at h'
+    simp [norm, h'.1, norm_shaped x _ h'.2]
+  | .selector x s, p, h => by
+    have h' : shaped x highestPrec = true := by simpa [shaped] using h
+    simp [norm, norm_shaped x _ h']
+  | .index x i, p, h => by
+    have h' : shaped x highestPrec = true ∧ shaped i lowestPrec = true := by simpa [shaped] using h
+    simp [norm, norm_shaped x _ h'.1, norm_shaped i _ h'.2]
+  | .call f args ell cmd, p, h => by
+    have h' : shaped f highestPrec = true ∧ shapedL args = true := by simpa [shaped] using h
+    simp [norm, norm_shaped f _ h'.1, normL_shaped args h'.2]
+  | .errWrap x tok none, p, h => by
+    have h' : shaped x highestPrec = true := by simpa [shaped] using h
+    simp [norm, norm_shaped x _ h']
+  | .errWrap x tok (some d), p, h => by
+    have h' := h
+    simp only [shaped, Bool.and_eq_true, decide_eq_true_eq] at h'
+    simp [norm, wrapP, Nat.not_lt.mpr h'.1.1, norm_shaped x _ h'.1.2, norm_shaped d _ h'.2]
+  | .ident _, _, _ => by simp [norm]
+  | .lit _ _, _, _ => by simp [norm]
+  | .numUnit _ _ _, _, _ => by simp [norm]
+  | .env _ _, _, _ => by simp [norm]
+  | .slice .., _, _ => by simp [norm]
+  | .composite .., _, _ => by simp [norm]
+  | .kv .., _, _ => by simp [norm]
+  | .sliceLit .., _, _ => by simp [norm]
+  | .lambda .., _, _ => by simp [norm]
+  | .typeAssert .., _, _ => by simp [norm]
+  | .range .., _, _ => by simp [norm]
+  | .tuple .., _, _ => by simp [norm]
+  | .bad, _, _ => by simp [norm]
+theorem normL_shaped : ∀ (l : List XExpr), shapedL l = true → normL l = l
+  | [], _ => by simp [normL]
+  | e :: r, h => by
+    have h' : shaped e lowestPrec = true ∧ shapedL r = true := by simpa [shapedL] using h
+    simp [normL, norm_shaped e _ h'.1, normL_shaped r h'.2]
 end
 
 end GopModel.ExprSyntax
